@@ -80,4 +80,32 @@ def treeOkL : List Tree → Bool
   | t :: ts => treeOk t && treeOkL ts
 end
 
+mutual
+/-- rebuild the element tree from a marshalled token stream (run-time side of the theorems'
+    premise "the stream is `toksOf` of a tree") -/
+def parseTree : Nat → List XTok → Option (Tree × List XTok)
+  | 0, _ => none
+  | fuel + 1, .start n as :: .text t :: .stop m :: r => if n == m then some (.leaf n as t, r) else none
+  | fuel + 1, .start n as :: r =>
+    match parseKids fuel r with
+    | some (kids, .stop m :: r') => if n == m then some (.node n as kids, r') else none
+    | _ => none
+  | _, _ => none
+def parseKids : Nat → List XTok → Option (List Tree × List XTok)
+  | 0, _ => none
+  | fuel + 1, toks =>
+    match toks with
+    | .start _ _ :: _ =>
+      match parseTree fuel toks with
+      | some (t, r) => (parseKids fuel r).map fun (ts, r') => (t :: ts, r')
+      | none => none
+    | _ => some ([], toks)
+end
+
+/-- the tree behind a token stream, if the stream is exactly one well-formed element -/
+def treeOfToks (toks : List XTok) : Option Tree :=
+  match parseTree (toks.length + 1) toks with
+  | some (t, []) => if toksOf t == toks then some t else none
+  | _ => none
+
 end TrackVerif.LT.Xml
